@@ -19,3 +19,6 @@ Lemma Rleb_false a b : Rleb a b = false <-> b < a.
 Proof. unfold Rleb; destruct (Rle_dec a b); split; intros; try easy; lra. Qed.
 Lemma Rltb_false a b : Rltb a b = false <-> b <= a.
 Proof. unfold Rltb; destruct (Rlt_dec a b); split; intros; try easy; lra. Qed.
+Definition Rtrunc (x : R) : Z := if Rle_dec 0 x then Int_part x else (- Int_part (- x))%Z.
+#[export] Instance NumIR : NumI R := {| ntrunc := Rtrunc |}.
+#[export] Instance NumXR : NumX R := {| nexp := exp; nln := ln |}.
